@@ -455,7 +455,7 @@ func TestVerifC02Server(t *testing.T) {
 			c02ScPanicAlphabet(c, lv.e, fresh, lv.e.routes["pv"], r)
 		})
 		sub("conns", func(r *rand.Rand) {
-			c02ScMaxConns(c, lv.e, fresh, lv.e.routes["conns"][0], nMax, 1+r.Intn(3), r)
+			c02ScMaxConns(c, lv.e, fresh, lv.e.routes["conns"][0], nMax, 25+r.Intn(10), r)
 		})
 		sub("bytes", func(r *rand.Rand) {
 			rt := lv.e.routes["bytes"][0]
